@@ -43,16 +43,16 @@ pub(crate) fn writer_same(a: &BodyWriter, b: &BodyWriter) -> bool {
     m && a.ended == b.ended
 }
 
-const W04: usize = 16;
+const W04: usize = if THOROUGH { 32 } else { 16 };
 
 //@ props: C04 C01 C19
 //@ tier: quick
 //@ unwind: 4
-//@ unwindset: c04_writer_sized_step=18
+//@ unwindset: c04_writer_sized_step=18|34
 //@ timeout: 600
 //@ encodes: BodyWriter::write (Sized arm), Writer::try_write, Cursor::write, write_all
 //@ vars: left: any u64; ended: bool (RI: ended => left==0); input 16 symbolic bytes, in<=16; out buffer 16 symbolic bytes, out<=16
-//@ bounds: slices <= 16 bytes; left unbounded (full u64)
+//@ bounds: slices <= 16 bytes (32 in the thorough tier); left unbounded (full u64)
 //@ outside: slices longer than 16 bytes (only min() and one memcpy depend on the length)
 //@ clause: k=min(in,out,left) consumed==produced; out[..k]==in[..k]; bytes beyond k untouched; left'=left-k; ended' <=> left'==0
 #[kani::proof]
